@@ -1,8 +1,187 @@
-//! C09 correspondence streams (stub).
-use crate::util::Opts;
+//! C09: time conservation and progress of `Core::update` over generated programs.
+//!
+//! c09         (non-jit build: one instruction per step)  } generated programs (counted loops, CALL/RET, CALL cc / JP cc,
+//! c09.blocks  (jit build: one block per step)            } PUSH/POP, ALU, EI/DI, software-requested interrupts, HALT with
+//!                                                          the timer programmed through TMA/TAC/IE, OAM DMA) placed in WRAM
+//!                                                          at 0xC000, interrupt vectors in ROM patched to PUSH AF; INC A; POP AF; RETI,
+//!                                                          stepped with the real `Core::update`; after every step the clocks the
+//!                                                          timer has received (hook `verif_state().0`, mod 65536 — programs never
+//!                                                          write DIV), `registers.cycles`, `last_block_cycle_length`, LY, all
+//!                                                          registers, IME, run state, IF.
+//! c09.frame   (jit build) `Core::run_frame`'s two polling loops re-run with a step cap on NOP-sled programs whose block
+//!             length is a parameter: short blocks must end within two frame periods; a 1463-cycle block (17556/12) steps
+//!             over every VBlank window (DESIGN §5 C09 F.).
+//!
+//! c09[.blocks] prog=<hex> init=af,bc,de,hl steps=N | t=<div,cyc,lbc,ly,ip,sp,af,bc,de,hl,ime,run,if per step ; ...>
+//! c09.frame n0= n1= cap= | e1= s1= k1= e2= s2= k2= mx=      (ended, steps, clocks of the two run_frame calls; longest step)
+use crate::emulator::{Core, InterruptState, RunState};
+use crate::mem::{memory_write_byte, MemoryAreas};
+use crate::roms::*;
+use crate::util::{hex, Opts, Rng};
 use std::io::Write;
 
-pub fn run(sub: &str, _opts: &Opts, _w: &mut dyn Write) {
-  eprintln!("stream c09.{} not implemented", sub);
-  std::process::exit(2);
+/// what every interrupt vector holds: PUSH AF; INC A; POP AF; RETI
+pub const HANDLER: [u8; 4] = [0xf5, 0x3c, 0xf1, 0xd9];
+
+fn ime_code(s: &InterruptState) -> u32 { match s { InterruptState::Enabled => 0, InterruptState::Disabled => 1, InterruptState::EnableNext => 2 } }
+fn run_code(s: &RunState) -> u32 { match s { RunState::Run => 0, RunState::Stop => 1, RunState::Halt => 2 } }
+
+fn setup(prog: &[u8], init: [u16; 4]) -> Core {
+  let mut core = mk_core(0x03, 1, 3);
+  for i in 0..0x100 { core.memory.rom[i] = 0x00; }
+  for v in [0x40usize, 0x48, 0x50, 0x58, 0x60] { for (k, b) in HANDLER.iter().enumerate() { core.memory.rom[v + k] = *b; } }
+  let p = &mut core.memory as *mut MemoryAreas;
+  for (i, b) in prog.iter().enumerate() { memory_write_byte(p, 0xc000u16 + i as u16, *b); }
+  core.registers.af = init[0] as u32; core.registers.bc = init[1] as u32;
+  core.registers.de = init[2] as u32; core.registers.hl = init[3] as u32;
+  core.registers.sp = 0xdff0; core.registers.ip = 0xc000; core.registers.cycles = 0;
+  core.interrupts_enabled = InterruptState::Disabled;
+  core.run_state = RunState::Run;
+  core
+}
+
+/// A-register / flag operations that touch neither H, L nor memory writes
+fn gen_alu(rng: &mut Rng, p: &mut Vec<u8>, n: u64) {
+  for _ in 0..n {
+    match rng.below(8) {
+      0 => { let r = *rng.pick(&[0u8, 1, 2, 3, 4, 5, 6, 7]); p.push(0x80 + 8 * (rng.below(8) as u8) + r); }   // ALU A,r / (HL)
+      1 => { p.push(*rng.pick(&[0xc6u8, 0xce, 0xd6, 0xde, 0xe6, 0xee, 0xf6, 0xfe])); p.push(rng.u8()); }           // ALU A,n
+      2 => p.push(*rng.pick(&[0x04u8, 0x05, 0x0c, 0x0d, 0x14, 0x15, 0x1c, 0x1d, 0x3c, 0x3d])),                    // INC/DEC B C D E A
+      3 => p.push(*rng.pick(&[0x07u8, 0x0f, 0x17, 0x1f, 0x27, 0x2f, 0x37, 0x3f])),                                // rotates, DAA, CPL, SCF, CCF
+      4 => { let r = *rng.pick(&[0u8, 1, 2, 3, 7, 6]); p.push(0xcb); p.push(8 * (rng.below(16) as u8) + r); }     // CB rot/shift/BIT on B C D E A (HL)
+      5 => { p.push(*rng.pick(&[0x06u8, 0x0e, 0x16, 0x1e, 0x3e])); p.push(rng.u8()); }                            // LD r,n
+      6 => p.push(*rng.pick(&[0x03u8, 0x0b, 0x13, 0x1b, 0x00])),                                                  // INC/DEC BC DE, NOP
+      _ => p.push(*rng.pick(&[0x41u8, 0x4a, 0x53, 0x78, 0x47, 0x7e, 0x46, 0x56])),                                // LD r,r' / r,(HL)
+    }
+  }
+}
+
+pub fn gen_prog(rng: &mut Rng) -> Vec<u8> {
+  let mut p: Vec<u8> = vec![0xc3, 0, 0];                       // JP main
+  let nsubs = 1 + rng.below(3) as usize;
+  let mut subs: Vec<u16> = Vec::new();
+  for _ in 0..nsubs {
+    subs.push(0xc000 + p.len() as u16);
+    let n = rng.below(4);
+    gen_alu(rng, &mut p, n);
+    if rng.chance(1, 3) { p.push(*rng.pick(&[0xc0u8, 0xc8, 0xd0, 0xd8])); }   // RET cc
+    if rng.chance(1, 4) { p.push(0xc5); p.push(0xc1); }                       // PUSH BC; POP BC
+    p.push(0xc9);
+  }
+  let main = 0xc000 + p.len() as u16;
+  p[1] = (main & 0xff) as u8; p[2] = (main >> 8) as u8;
+  p.extend_from_slice(&[0x31, 0xf0, 0xdf, 0x21, 0x00, 0xd0]);   // LD SP,0xDFF0 ; LD HL,0xD000
+  let timer = rng.chance(3, 4);
+  let tac = if timer { *rng.pick(&[4u8, 5, 6, 7, 5, 6]) } else { 0 };
+  if timer {
+    p.extend_from_slice(&[0x3e, *rng.pick(&[0x00u8, 0x80, 0xc0, 0xf0, 0xfc, 0xff]), 0xe0, 0x06]);     // TMA
+    p.extend_from_slice(&[0x3e, rng.u8(), 0xe0, 0x05]);                                                // TIMA
+    p.extend_from_slice(&[0x3e, tac, 0xe0, 0x07]);                                                     // TAC
+  }
+  let ie = if timer { *rng.pick(&[0x04u8, 0x04, 0x04, 0x0c, 0x00]) } else { *rng.pick(&[0x00u8, 0x08, 0x10]) };
+  p.extend_from_slice(&[0x3e, ie, 0xe0, 0xff]);                 // IE
+  if rng.chance(2, 3) { p.push(0xfb); }                          // EI
+  let nblocks = 3 + rng.below(14);
+  let mut hl_incs = 0;
+  for _ in 0..nblocks {
+    match rng.below(13) {
+      0 => { p.extend_from_slice(&[0x06, 1 + rng.below(40) as u8, 0x05, 0x20, 0xfd]); }                 // LD B,n ; L: DEC B ; JR NZ,L
+      1 => { let s = *rng.pick(&subs); p.extend_from_slice(&[0xcd, (s & 0xff) as u8, (s >> 8) as u8]); } // CALL
+      2 => { let s = *rng.pick(&subs); p.extend_from_slice(&[*rng.pick(&[0xc4u8, 0xcc, 0xd4, 0xdc]), (s & 0xff) as u8, (s >> 8) as u8]); }
+      3 => { p.extend_from_slice(*rng.pick(&[&[0xc5u8, 0xd1][..], &[0xf5, 0xf1][..], &[0xd5, 0xc5, 0xd1, 0xc1][..]])); }
+      4 | 5 => { let n = 1 + rng.below(6); gen_alu(rng, &mut p, n); }
+      6 => p.push(*rng.pick(&[0xfbu8, 0xf3, 0xfb])),
+      7 => { p.extend_from_slice(&[0x3e, *rng.pick(&[0x04u8, 0x04, 0x08, 0x10, 0x1c]), 0xe0, 0x0f]); } // request through IF
+      8 => { if timer && ie & 4 != 0 { p.push(0x76); } else { p.push(0x00); } }                        // HALT (woken by the timer)
+      9 => { p.extend_from_slice(&[0x3e, *rng.pick(&[0xc0u8, 0xd0, 0xc1]), 0xe0, 0x46, 0x06, 1 + rng.below(60) as u8, 0x05, 0x20, 0xfd]); } // OAM DMA + delay
+      10 => {                                                                                           // JP cc over NOPs
+        let k = 1 + rng.below(3) as u16;
+        let t = 0xc000 + p.len() as u16 + 3 + k;
+        p.extend_from_slice(&[*rng.pick(&[0xc2u8, 0xca, 0xd2, 0xda, 0xc3]), (t & 0xff) as u8, (t >> 8) as u8]);
+        for _ in 0..k { p.push(0x00); }
+      }
+      11 => { if hl_incs < 200 { hl_incs += 1; p.extend_from_slice(&[0x77, 0x23, 0x7e]); } }            // LD (HL),A ; INC HL ; LD A,(HL)
+      _ => { let k = 1 + rng.below(2) as u8; p.extend_from_slice(&[*rng.pick(&[0x20u8, 0x28, 0x30, 0x38, 0x18]), k]); for _ in 0..k { p.push(0x00); } } // JR cc over NOPs
+    }
+  }
+  if timer && ie & 4 != 0 && rng.chance(2, 3) { p.extend_from_slice(&[0x76, 0x18, 0xfd]); }           // L: HALT ; JR L
+  else if rng.chance(1, 4) { p.extend_from_slice(&[0x10, 0x00, 0x18, 0xfc]); }                         // L: STOP ; JR L
+  else { p.extend_from_slice(&[0x00, 0x18, 0xfd]); }                                                   // L: NOP ; JR L
+  p
+}
+
+fn run_prog(name: &str, prog: &[u8], init: [u16; 4], steps: usize, w: &mut dyn Write) {
+  let mut core = setup(prog, init);
+  let mut t: Vec<String> = Vec::with_capacity(steps);
+  for _ in 0..steps {
+    core.update();
+    let div = core.memory.io.timer.verif_state().0 & 0xffff;
+    t.push(format!("{},{},{},{},{},{},{},{},{},{},{},{},{}", div, { core.registers.cycles }, core.last_block_cycle_length,
+      core.memory.io.video.get_ly(), { core.registers.ip }, { core.registers.sp }, { core.registers.af }, { core.registers.bc },
+      { core.registers.de }, { core.registers.hl }, ime_code(&core.interrupts_enabled), run_code(&core.run_state),
+      core.memory.io.interrupt_flag.as_u8()));
+  }
+  writeln!(w, "{} prog={} init={},{},{},{} steps={} | t={}", name, hex(prog), init[0], init[1], init[2], init[3], steps, t.join(";")).unwrap();
+}
+
+/// `Core::run_frame` with a step cap: (ended, steps, clocks delivered, longest step in clocks)
+fn capped_run_frame(core: &mut Core, cap: usize) -> (bool, usize, u64, u64) {
+  let mut steps = 0usize; let mut clocks = 0u64; let mut mx = 0u64;
+  let mut step = |core: &mut Core| {
+    let d0 = core.memory.io.timer.verif_state().0 & 0xffff;
+    core.update();
+    let d1 = core.memory.io.timer.verif_state().0 & 0xffff;
+    let d = ((d1 + 0x10000 - d0) & 0xffff) as u64;
+    d
+  };
+  while core.memory.io.video.get_current_mode() != 1 {
+    if steps >= cap { return (false, steps, clocks, mx); }
+    let d = step(core); steps += 1; clocks += d; if d > mx { mx = d; }
+  }
+  while core.memory.io.video.get_current_mode() == 1 {
+    if steps >= cap { return (false, steps, clocks, mx); }
+    let d = step(core); steps += 1; clocks += d; if d > mx { mx = d; }
+  }
+  (true, steps, clocks, mx)
+}
+
+fn frame_probe(n0: usize, n1: usize, cap: usize, w: &mut dyn Write) {
+  // n0 NOPs ; JP loop ; loop: n1 NOPs ; JP loop
+  let mut prog: Vec<u8> = vec![0x00; n0];
+  let lp = 0xc000 + n0 as u16 + 3;
+  prog.extend_from_slice(&[0xc3, (lp & 0xff) as u8, (lp >> 8) as u8]);
+  for _ in 0..n1 { prog.push(0x00); }
+  prog.extend_from_slice(&[0xc3, (lp & 0xff) as u8, (lp >> 8) as u8]);
+  let mut core = setup(&prog, [0x01b0, 0x0013, 0x00d8, 0x014d]);
+  let (e1, s1, k1, m1) = capped_run_frame(&mut core, cap);
+  let (e2, s2, k2, m2) = capped_run_frame(&mut core, cap);
+  writeln!(w, "c09.frame n0={} n1={} cap={} | e1={} s1={} k1={} e2={} s2={} k2={} mx={}", n0, n1, cap,
+    e1 as u32, s1, k1, e2 as u32, s2, k2, m1.max(m2)).unwrap();
+}
+
+pub fn run(sub: &str, opts: &Opts, w: &mut dyn Write) {
+  let (shard, nshards) = opts.shard();
+  let mut rng = Rng::new(opts.seed ^ 0xc09);
+  if sub == "frame" {
+    // (n0, n1): first block n0 + 4 machine cycles, loop block n1 + 4
+    let mut cases: Vec<(usize, usize)> = vec![(10, 10), (100, 300), (1136, 1136), (5, 1100), (1196, 1459), (1300, 1459), (1196, 2922)];
+    let n = if opts.thorough { 60 } else { 12 };
+    for _ in 0..n { cases.push((rng.below(1150) as usize, rng.below(1130) as usize)); }
+    for (i, (n0, n1)) in cases.iter().enumerate() {
+      if i % nshards != shard { continue; }
+      // cap: 40 frames' worth of the longer block, at least 4 frames of 1-cycle steps
+      let per = (*n1 + 4).min(*n0 + 4).max(1);
+      let cap = if per > 200 { 40 * 17556 / per + 50 } else { 4 * 17556 };
+      frame_probe(*n0, *n1, cap, w);
+    }
+    return;
+  }
+  let name = if sub == "blocks" { "c09.blocks" } else { "c09" };
+  let (nprog, steps) = if opts.thorough { (3000usize, 4000usize) } else { (200usize, 1000usize) };
+  for i in 0..nprog {
+    let prog = gen_prog(&mut rng);
+    let init = [rng.u16() & 0xfff0, rng.u16(), rng.u16(), 0u16];
+    if i % nshards != shard { continue; }
+    run_prog(name, &prog, init, steps, w);
+  }
 }
